@@ -335,11 +335,31 @@ EITHER = {
 }
 
 
+def rep_of(r):
+    """explicit representation of an implementation result (cores and factors as nested lists, batch axis first);
+    an ordinary tensor is reported as a batch of one"""
+    modes = []
+    for c, U in zip(r.cores, r.Us):
+        c = c.detach().double(); U = None if U is None else U.detach().double()
+        if not r.batch:
+            c = c[None]; U = None if U is None else U[None]
+        if c.dim() not in (3, 4) or (U is not None and U.dim() != 3):
+            return None
+        modes.append({"kind": "tt" if c.dim() == 4 else "cp", "core": c.tolist(), "U": None if U is None else U.tolist()})
+    return {"B": len(modes[0]["core"]) if modes else 0, "modes": modes}
+
+
 def payload(r):
     if isinstance(r, tn.Tensor):
         d = r.torch()
-        return {"ok": True, "kind": "batch" if r.batch else "tensor", "shape": list(d.shape),
-                "dense": d.detach().double().reshape(-1).tolist()}
+        out = {"ok": True, "kind": "batch" if r.batch else "tensor", "shape": list(d.shape),
+               "dense": d.detach().double().reshape(-1).tolist()}
+        if sum(c.numel() for c in r.cores) + sum(U.numel() for U in r.Us if U is not None) <= 1800:
+            try:
+                out["rep"] = rep_of(r)
+            except Exception:
+                pass
+        return out
     if isinstance(r, torch.Tensor):
         return {"ok": True, "kind": "torch", "shape": list(r.shape), "dense": r.detach().double().reshape(-1).tolist()}
     if isinstance(r, (int, float, np.floating, np.integer)):
@@ -371,8 +391,9 @@ def ortho_dev(t, mu):
 
 class Prop:
     ID = "C18"
-    LEVEL = "exploration"
-    COQ_HEADER = ""; CHECK_FN = ""
+    LEVEL = "proof"
+    COQ_HEADER = "From TN Require Import Harness.H_C18.\nFrom Coq Require Import QArith.\nOpen Scope Z_scope."
+    CHECK_FN = "check_any"
     RULE = ("batch sizes 1..4, 2..4 further modes of sizes 1..3 (up to 5 for the factor-level product), explicit integer batch "
             "cores; enumerated format lattice ({TT,CP}x{U,no U} per mode) for N=2 on one and on both operands, named pure/hybrid "
             "formats and seeded mixes for N=3,4; ranks 1..3 (> size included), one all-zero element, identical elements; "
@@ -383,8 +404,15 @@ class Prop:
             "left/right_orthogonalize; getitem (int / slice / None / Ellipsis / index-array run on the non-batch modes; int / slice "
             "/ list / implicit selection on the batch mode; malformed keys); unequal batch sizes and batch-with-non-batch operands; "
             "31 operations without batch support; 17 derived operations. Non-trivial = no error and a non-zero result; distinct = "
-            "distinct (op, formats, B, shape, argument signature).")
-    TRUSTED = ["NumPy float64 linear algebra (SVD) for the truncation oracles; exact integer arithmetic of float64 on the small inputs",
+            "distinct (op, formats, B, shape, argument signature). "
+            "Coq correspondence (Model/Batch.v, exact over Z; over Q for the scalars 1/2, 1/3): torch(), + - * on two batch operands "
+            "(unequal batch sizes included: the model refuses), the 7 scalar forms, selection along the batch mode alone (int / slice / "
+            "list); compared: the decompression of every batch element and, except for scalar multiplication, the result's cores and "
+            "factors themselves (format, ranks, entries). Excluded from the Coq side (NumPy oracle only): construction from dense data, "
+            "rounding, orthogonalisation, keys that touch the non-batch modes, batch-with-non-batch operands, the error clauses.")
+    TRUSTED = ["the reading of torch.cat / einsum / reshape (row-major, leading batch axis kept) / sum / [:, None] as the index maps of Model/Batch.v",
+               "Tensor.torch() on a batch tensor is modelled (torch_b) and compared with eval of every element on each case, not proved equal to it",
+               "NumPy float64 linear algebra (SVD) for the truncation oracles; exact integer arithmetic of float64 on the small inputs",
                "the shape bookkeeping sim_* in this file only TAGS cases for the open findings round-tt-null / eig-tall-factor, it never decides agreement",
                "ranks_cp=2 cases compare each batch element with the ordinary constructor run on the same data (differential, not an independent oracle)"]
     ASSUMPTIONS = ["rank-limited construction / rounding is compared with the sequential truncated-SVD specification (Tucker modes N-1..0, "
@@ -395,7 +423,9 @@ class Prop:
                    "round(eps) and construction with eps raise on every batch tensor today (relative_error has no batch support); the cases "
                    "accept an error or a result within eps of every element",
                    "batch tensors with a single non-batch mode and broadcasting between batch operands are outside the quantifier and not generated"]
-    THEOREMS = []
+    THEOREMS = ["C18_add_slice", "C18_mul_slice", "C18_smul_slice", "C18_sadd_slice", "C18_decompress_slice", "C18_cp_to_tt_slice",
+                "C18_select_slice", "C18_select_int", "C18_wf_slice", "C18_add_c", "C18_mul_with", "C18_add", "C18_mul", "C18_smul",
+                "C18_sadd", "C18_decompress", "C18_select", "C18_add_batch_size", "C18_mul_batch_size"]
 
     # ------------------------------------------------------------------ generation
     def generate(self, rng, tier):
@@ -991,5 +1021,103 @@ class Prop:
                           case.get("name"), case.get("algorithm")], default=str)
         return "%s;%s;%s;%s;%s;%s" % (t["op"], t.get("fmt"), t.get("fmt2"), t.get("B"), t.get("shape"), arg)
 
+    # ------------------------------------------------------------------ correspondence with the Coq model
     def coq_term(self, case, res):
-        return None
+        op = case["op"]
+        if op not in ("torch", "getitem") and op not in BIN and op not in SCAL:
+            return None
+        a = case["a"]; B = a["B"]
+        frac = None                      # the scalar as an exact rational
+        o = None
+        if op in SCAL:
+            c = Fraction(case["c"]).limit_denominator(1000)
+            if op == "div":
+                c = 1 / c
+            if op == "ssub":
+                c = -c
+            frac = c
+        useQ = frac is not None and frac.denominator != 1
+        pre = "q" if useQ else "z"
+        lit = (lambda x: qlit(Fraction(x).limit_denominator(10 ** 6))) if useQ else zlit
+        scope = "Q" if useQ else "Z"
+        bt = lambda bj: coq_btensor(bj, pre, lit, scope)
+        if op == "torch":
+            o = "%sTorch %s" % (pre, bt(a))
+        elif op in BIN:
+            o = "%s%s %s %s" % (pre, {"add": "Add", "sub": "Sub", "mul": "Mul"}[op], bt(a), bt(case["b"]))
+        elif op in SCAL:
+            nm = {"sadd": "Sadd", "radd": "Sadd", "ssub": "Sadd", "rsub": "Rsub", "smul": "Smul", "rmul": "Smul", "div": "Smul"}[op]
+            o = "%s%s %s %s" % (pre, nm, lit(frac), bt(a))
+        else:                            # getitem: selection along the batch mode only
+            if not res.get("ok") or case["tags"].get("kf"):
+                return None
+            try:
+                full = expand_key(list(pykey(case["key"])), len(a["modes"]) + 1)
+            except KeyError_:
+                return None
+            if not full or full[0] is None or any(k != slice(None) for k in full[1:]):
+                return None
+            bk = full[0]
+            if isinstance(bk, int):
+                if not (-B <= bk < B):
+                    return None
+                o = "zSelInt %d %s" % (bk % B, bt(a))
+            else:
+                if isinstance(bk, slice):
+                    if bk.step is not None and bk.step <= 0:
+                        return None
+                    sel = list(range(B)[bk])
+                else:
+                    if any(not (-B <= i < B) for i in bk):
+                        return None
+                    sel = [i % B for i in bk]
+                if not sel:
+                    return None
+                o = "zSel %s %s" % (coq_natlist(sel), bt(a))
+        if not res.get("ok"):
+            return "c%s (%sCase (%s) false [] [] %sNoCores)" % (scope, pre, o, pre)
+        if res.get("kind") not in ("batch", "tensor") or res.get("shape") is None:
+            return None
+        isb = res["kind"] == "batch"
+        shape = res["shape"][1:] if isb else res["shape"]
+        nB = res["shape"][0] if isb else 1
+        d = np.array(res["dense"], dtype=np.float64).reshape(nB, -1)
+        if useQ:
+            qd = lambda x: "(%d#%d)" % (round(x * 2 ** 40), 2 ** 40)
+            dense = "[" + ";".join(coq_list(row, qd, "Q") for row in d) + "]"
+        else:
+            rows = []
+            for row in d:
+                ci = canon_dense(row)
+                rows.append(coq_list(ci if ci is not None else [10 ** 9]))    # a non-integer result forces a disagreement
+            dense = "[" + ";".join(rows) + "]"
+        cores = "%sNoCores" % pre
+        rep = res.get("rep")
+        if rep is not None and rep["modes"] and not (op in SCAL and o.startswith(pre + "Smul")):
+            if useQ:
+                cores = "(Some %s)" % coq_btensor(rep, pre, lambda x: "(%d#%d)" % (round(x * 2 ** 40), 2 ** 40), scope)
+            else:
+                flatall = [x for m in rep["modes"] for x in flat(m["core"]) + (flat(m["U"]) if m["U"] is not None else [])]
+                if canon_dense(flatall) is not None:
+                    cores = "(Some %s)" % coq_btensor(rep, pre, lambda x: zlit(round(x)), scope)
+                else:
+                    cores = "(Some (%sBT 0 []))" % pre                     # non-integer cores: force a disagreement
+        term = "c%s (%sCase (%s) true %s %s %s)" % (scope, pre, o, coq_natlist(shape), dense, cores)
+        return term if len(term) < 60000 else None
+
+
+def coq_btensor(bj, pre, lit, scope):
+    ms = []
+    for m in bj["modes"]:
+        c = np.array(m["core"], dtype=np.float64)
+        if m["kind"] == "tt":
+            core = "(%sBTT %d %d %d %s)" % (pre, c.shape[1], c.shape[2], c.shape[3], coq_list(flat(c), lit, scope))
+        else:
+            core = "(%sBCP %d %d %s)" % (pre, c.shape[1], c.shape[2], coq_list(flat(c), lit, scope))
+        if m["U"] is None:
+            fac = "%sNoU" % pre
+        else:
+            U = np.array(m["U"], dtype=np.float64)
+            fac = "(%sBU %d %d %s)" % (pre, U.shape[1], U.shape[2], coq_list(flat(U), lit, scope))
+        ms.append("%sBM %s %s" % (pre, core, fac))
+    return "(%sBT %d [%s])" % (pre, bj["B"], "; ".join(ms))
